@@ -262,8 +262,75 @@ func (b *blockGen) mappingBlock(kind string, gamma, off float64) {
 
 // genGrammarHistory (C07): well-formed streams generated from the documented grammar, in any block
 // order, decoded into each store kind.
+// genWideStrideHistory (C07 ii): two bins more than 2^31 indexes apart in one delta-encoded block (the
+// difference of two int32 indexes is a 33-bit quantity; the format carries it as a varint64). Needs a
+// very fine mapping for such indexes to be indexable; decoded into sparse and collapsing targets (a
+// dense or paginated target would allocate gigabytes), paginated too when every weight is 1.
+func (g *Gen) genWideStrideHistory() {
+	r := g.rng
+	sg := g.newSkGen("C07")
+	g.beginHist("C07")
+	sg.sh.Exec(fmt.Sprintf("#hist %d", g.hist))
+	sg.mkind = "log"
+	sg.mh = 1
+	sg.m = sg.newMappingHandle(1, "log", 2e-7, false)
+	pb := sg.m.ToProto()
+	lo, hi := sg.m.Index(sg.m.MinIndexableValue()*1.0001), sg.m.Index(sg.m.MaxIndexableValue()*0.9999)
+	a, b := lo+r.Range(1000, 100000), hi-r.Range(1000, 100000)
+	if r.Bool(50) {
+		a, b = b, a // a wide negative stride
+	}
+	bg := &blockGen{sg: sg, base: 0, spread: 1}
+	embed := r.Bool(60)
+	if embed {
+		bg.mappingBlock("log", pb.Gamma, pb.IndexOffset)
+	}
+	unit := r.Bool(50)
+	side := byte(1)
+	if r.Bool(30) {
+		side = 3
+	}
+	mid := r.Range(-1000, 1000)
+	idxs := []int{a, b}
+	if r.Bool(50) {
+		idxs = []int{a, mid, b}
+	}
+	if unit {
+		bg.flag(side, 2)
+	} else {
+		bg.flag(side, 1)
+	}
+	enc.EncodeUvarint64(&bg.out, uint64(len(idxs)))
+	prev := 0
+	for _, i := range idxs {
+		enc.EncodeVarint64(&bg.out, int64(i-prev))
+		if !unit {
+			enc.EncodeVarfloat64(&bg.out, float64(r.Range(1, 9))/2)
+		}
+		prev = i
+	}
+	prov := "1"
+	if embed && r.Bool(60) {
+		prov = "-"
+	}
+	kinds := []string{"sparse", "low", "high", "sparse"}
+	if unit {
+		kinds = append(kinds, "pag")
+	}
+	for t := 0; t < 3; t++ {
+		if sg.dec(2+t, prov, 1, sg.storeSpec(kinds), false, bg.out) == "ok" {
+			sg.ensureValues(2 + t)
+			sg.obs(2 + t)
+		}
+	}
+}
+
 func (g *Gen) genGrammarHistory() {
 	r := g.rng
+	if r.Bool(6) {
+		g.genWideStrideHistory()
+		return
+	}
 	sg := g.newSkGen("C07")
 	g.beginHist("C07")
 	sg.sh.Exec(fmt.Sprintf("#hist %d", g.hist))
